@@ -6,6 +6,9 @@
 #include <sstream>
 
 #include "optable.hpp"
+#ifdef HAVE_IO
+#include "io.hpp"
+#endif
 
 namespace sim
 {
@@ -13,6 +16,11 @@ namespace sim
 
    RunResult run_case( SetId set, const Case& c )
    {
+#ifdef HAVE_IO
+      if( int( set ) >= IO_FIRST && int( set ) <= IO_LAST ) {
+         return run_io( int( set ), c );
+      }
+#endif
       switch( set ) {
 #ifdef HAVE_S1
          case SET_MEM: return run_set1( c );
@@ -43,6 +51,11 @@ namespace sim
 
    bool set_available( SetId set )
    {
+#ifdef HAVE_IO
+      if( int( set ) >= IO_FIRST && int( set ) <= IO_LAST ) {
+         return true;
+      }
+#endif
       switch( set ) {
 #ifdef HAVE_S1
          case SET_MEM: return true;
@@ -77,7 +90,7 @@ namespace sim
          case SET_BUF1:
          case SET_BUF64: return CAP_DEPTH | CAP_COLUMN | CAP_STATE | CAP_PLAINCTL | CAP_REMATCH | CAP_CTLSWITCH | CAP_PRIVSTATE;
          case SET_LAZY: return CAP_MEMORY | CAP_SETEND | CAP_DEPTH | CAP_STATE | CAP_PLAINCTL | CAP_CTLSWITCH | CAP_PRIVSTATE;
-         case SET_TREE: return CAP_MEMORY | CAP_SETEND | CAP_DEPTH | CAP_COLUMN | CAP_PRIVSTATE;
+         case SET_TREE: return CAP_MEMORY | CAP_SETEND | CAP_DEPTH | CAP_COLUMN | CAP_PRIVSTATE | CAP_TREEOPS;
          case SET_COV: return CAP_MEMORY | CAP_SETEND | CAP_DEPTH | CAP_COLUMN;
          default: return 0;
       }
